@@ -40,6 +40,9 @@ unsafe impl GlobalAlloc for Counting {
     }
     unsafe fn dealloc(&self, p: *mut u8, l: Layout) {
         if tracking() { LIVE.fetch_sub(l.size() as isize, Ordering::Relaxed); }
+        // freed memory is overwritten, so that a reference that outlives its buffer reads 0xDD bytes (C01: results kept after
+        // the iterator / deserializer that produced them is gone)
+        if l.size() <= (1 << 16) { std::ptr::write_bytes(p, 0xDD, l.size()); }
         System.dealloc(p, l)
     }
     unsafe fn realloc(&self, p: *mut u8, l: Layout, new: usize) -> *mut u8 {
